@@ -14,6 +14,7 @@ from typing import (
     cast,
 )
 
+import narwhals.stable.v1 as narwhals
 import numpy
 import pandas
 import scipy.sparse as spsparse
@@ -70,9 +71,18 @@ def C(
         model_spec: ModelSpec,
     ) -> FactorValues:
         # wrapped numpy arrays are problematic
-        values = pandas.Series(
-            values.__wrapped__ if isinstance(values, FactorValues) else values
-        )
+        values = values.__wrapped__ if isinstance(values, FactorValues) else values
+        if narwhals.dependencies.is_narwhals_series(values):
+            # Keep the declared categories (and their order) of categorical
+            # columns, as is done for factors that are not wrapped in `C()`.
+            if values.dtype == narwhals.Categorical:
+                values = pandas.Categorical(
+                    values.to_list(),
+                    categories=values.cat.get_categories().to_list(),
+                )
+            else:
+                values = values.to_pandas()
+        values = pandas.Series(values)
         if drop_rows:
             mask = numpy.ones(len(values), dtype=bool)
             mask[list(drop_rows)] = False
